@@ -211,7 +211,9 @@ impl Flounder {
         let reserve = 5_000; // Try to always keep 5 seconds
         let available = time_left.saturating_sub(reserve);
         let base_time = available / 25;
-        let allocated = base_time + increment;
+        // Never plan to spend the whole clock: stay strictly below the time that is left
+        // (an increment larger than the remaining time would otherwise exceed it)
+        let allocated = (base_time + increment).min(time_left.saturating_sub(time_left / 20 + 1));
 
         Some(Duration::from_millis(allocated))
     }
